@@ -43,6 +43,9 @@ def instances(tier):
             out.append({"kind": "at5_zone_status", "n": n, "delta": d})
             out.append({"kind": "at5_ac_status", "n": n, "delta": d})
             out.append({"kind": "at5_timer_status", "n": n, "delta": d})
+    # documented "not available" codes of power state / mode / fan speed in AC status (an AC that is offline at the console)
+    for g in (4, 5):
+        out.append({"kind": "not_available_codes", "gen": g})
     # history: the same (process-wide) decoder has seen a report with another record stride before
     for kind in ("at5_zone_status", "at5_ac_status", "at5_timer_status"):
         out.append({"kind": kind, "n": 2, "delta": 2, "after": 0})
@@ -125,6 +128,40 @@ def run(ctx, p):
     if p.get("after") is not None:
         _prime(k, p["after"])
     return fn(ctx, p)
+
+
+def _not_available_codes(ctx, p):
+    """AC status records whose power state / mode / fan speed field carries a code the document calls 'Not available'
+    (AT4: power 10/11, mode and fan 'Other'; AT5: 'Other'): C05 wants them decoded to absent values. The decoders raise
+    instead (the whole frame is lost and the connection is reset) - recorded as KF-C05-4, not repaired: an absent value
+    needs new enum members or Optional fields in the public message types."""
+    gen = p["gen"]
+    g = Gen(gen)
+    field = ("power", "mode", "fan")[ctx.choice("field", 3)]
+    if gen == 4:
+        rec = r4.build_ac_status(1, 1, 4, 2, 0, 0, 22, 740, 0)
+        if field == "power":
+            rec[0] = (rec[0] & 0x3F) | (2 << 6)
+        elif field == "mode":
+            rec[1] = (rec[1] & 0x0F) | (0xF << 4)
+        else:
+            rec[1] = (rec[1] & 0xF0) | 0xF
+        res, exc = _decode(g, 0x2D, rec, ctx)
+        lab = "at4_ac_status"
+    else:
+        rec = r5.build_ac_status(1, 1, 4, 2, 120, 0, 0, 0, 0, 740, 0, pad=0)
+        if field == "power":
+            rec[0] = (rec[0] & 0x0F) | (0xF << 4)
+        elif field == "mode":
+            rec[1] = (rec[1] & 0x0F) | (0xF << 4)
+        else:
+            rec[1] = (rec[1] & 0xF0) | 0xF
+        res, exc = _decode(g, 0xC0, framing.c0(0x23, [], 8, 1, rec), ctx)
+        lab = "at5_ac_status"
+    ctx.observe("decoded", res is not None)
+    ctx.check(res is not None, lab, known=[("KF-C05-4", True)], detail={"gen": gen, "field": field, "raised": type(exc).__name__ if exc else None})
+    for l in expect_labels("quick"):
+        ctx.reach(l)
 
 
 def _prime(kind, delta):
